@@ -273,10 +273,15 @@ class AlgebraMonitor:
             L = onp.linalg.cholesky(P)
         except onp.linalg.LinAlgError:
             return
+        cond = onp.max(onp.diag(L)) / max(onp.min(onp.diag(L)), 1e-300)
+        ev = onp.linalg.eigvalsh((P + P.T) / 2)
+        if cond > 1e7 or onp.min(ev) <= 1e-13 * onp.max(ev):
+            # numerically singular covariance (exactly known coefficients): the density is not defined
+            self.counts["logpdf_skipped_singular"] = self.counts.get("logpdf_skipped_singular", 0) + 1
+            return
         w = onp.linalg.solve(L, uf - m)
         ref = -0.5 * (w @ w) - onp.sum(onp.log(onp.diag(L))) - 0.5 * m.size * math.log(2 * math.pi)
         e = abs(float(out) - ref) / (1 + abs(ref))
-        cond = onp.max(onp.diag(L)) / max(onp.min(onp.diag(L)), 1e-300)
         self.note("logpdf", k, e)
         if e > 1e-7 + 1e-14 * min(cond**2, 1e8):
             self.v("logpdf", k, f"log-density {float(out)!r} differs from the multivariate-normal definition {ref!r}")
